@@ -21,9 +21,9 @@ WARM_CODE = 'import outrank.task_summary'
 
 def plan(tier, seed):
     shards = []
-    for i in range(6 if tier == 'quick' else 14):
+    for i in range(6 if tier == 'quick' else 36):
         shards.append({'name': 'tables-%d' % i, 'fn': 'shard_tables', 'args': {'part': i}})
-    for i in range(1 if tier == 'quick' else 4):
+    for i in range(1 if tier == 'quick' else 10):
         shards.append({'name': 'after-task-%d' % i, 'fn': 'shard_after_task', 'args': {'part': i}})
     return shards
 
